@@ -613,6 +613,12 @@ func isEntitledToSignCRL(candidate *core.CertificateChainEntry, chains *core.Cer
 				return false
 			}
 		}
+		//the presented certificate is no CRL signer either if it is the only certificate of its verified chain (a pinned client certificate)
+		for _, chain := range chains.CertificateChainList {
+			if len(chain.CertificateChainEntryList) == 1 && chain.CertificateChainEntryList[0].EndEntity && bytes.Equal(chain.CertificateChainEntryList[0].RawCertificate, candidate.RawCertificate) {
+				return false
+			}
+		}
 	}
 	return true
 }
